@@ -32,8 +32,25 @@ structure Itv (α : Type) where
   left : Option α
   right : Option α
 
-/-- `_line_infinite_cylinder_intersection(a, b, r, n)` -/
+/-- `_line_infinite_cylinder_intersection(a, b, r, n)` — the current code (after fix ef5a368): `n × a` and `b`
+    are projected onto the plane perpendicular to the axis before use, same operation order as the Python -/
 def lineInfiniteCylinder (a b : V3 α) (r : α) (n : V3 α) : Itv α :=
+  let nxa0 := V3.cross n a
+  let nxa := V3.sub nxa0 (V3.smul (V3.dot nxa0 a) a)
+  let bp := V3.sub b (V3.smul (V3.dot b a) a)
+  let q := V3.dot nxa nxa
+  let bn := V3.dot bp nxa
+  let s2 := q * (r * r) - bn * bn
+  let s := Trans.sqrt s2
+  let m := V3.dot nxa (V3.cross bp a)
+  let originIn := decide (V3.norm bp ≤ r)
+  if isZero q then ⟨originIn, none, none⟩
+  else ⟨decide ((0 : α) ≤ s2), some ((m - s) / q), some ((m + s) / q)⟩
+
+/-- the formula before fix ef5a368 (no projections): the same function over ℝ
+    (`Props.C18.old_variant_same`), but in floating point it lost all accuracy for rays parallel to the axis
+    up to rounding (finding `C18:near-axis-ray-rounding`) -/
+def lineInfiniteCylinderOld (a b : V3 α) (r : α) (n : V3 α) : Itv α :=
   let nxa := V3.cross n a
   let q := V3.dot nxa nxa
   let bn := V3.dot b nxa
@@ -81,6 +98,14 @@ def positiveIntervalIntersection (aL aR bL bR : Option α) : Option α :=
 def beamIntersection (a base : V3 α) (r h : α) (start n : V3 α) : Option α :=
   let b := V3.sub base start
   let c := lineInfiniteCylinder a b r n
+  let s := lineSlab a b h n
+  if c.hit && s.hit then positiveIntervalIntersection s.left s.right c.left c.right
+  else some 0
+
+/-- `beam_intersection` with the pre-fix cylinder formula (only used to re-find the old defect) -/
+def beamIntersectionOld (a base : V3 α) (r h : α) (start n : V3 α) : Option α :=
+  let b := V3.sub base start
+  let c := lineInfiniteCylinderOld a b r n
   let s := lineSlab a b h n
   if c.hit && s.hit then positiveIntervalIntersection s.left s.right c.left c.right
   else some 0
